@@ -127,7 +127,8 @@ class Gen:
         rng = self.rng
         pol = self.policy
         if pol == 'monotone':
-            self.advance(rng.choice([MS, 5 * MS, SEC, 3 * SEC, 700 * SEC, 86400 * SEC, 40 * 86400 * SEC]))
+            self.advance(rng.choice([MS, 5 * MS, 50 * MS, 300 * MS, 300 * MS, SEC, 3 * SEC, 700 * SEC, 86400 * SEC,
+                                     40 * 86400 * SEC]))
             self.fsmax = self.now
             return self.now
         if pol == 'coarse':
@@ -304,14 +305,33 @@ class Gen:
             return
         self.fs('utime', self.path_of(dotted, m['kind']), mt=self.stamp())
 
+    def burst(self, dotted):
+        """the same module rewritten several times in quick succession (formatter, save-on-type):
+        same size, stamps a few milliseconds apart, a query after each rewrite"""
+        for _ in range(self.rng.randint(2, 3)):
+            m = self.mods.get(dotted)
+            if not m or m['kind'] == 'namespace':
+                return
+            src, ver, shape = self.source(dotted, new_shape=False)
+            if self.policy == 'monotone':
+                self.advance(self.rng.choice([2 * MS, 7 * MS, 40 * MS, 150 * MS]))
+                st = self.fsmax = self.now
+            else:
+                st = self.stamp()
+            self.fs('write', self.path_of(dotted, m['kind']), content=src, mt=st)
+            m.update(ver=ver, shape=shape)
+            self.query()
+
     def mutate(self):
         rng = self.rng
         tops = [d for d in self.mods if '.' not in d]
         subs = [d for d in self.mods if '.' in d]
         free_top = [n for n in world.TOP + world.PKG + self.lib_names if n not in self.mods]
         r = rng.random()
-        if r < 0.22 and self.mods:
-            self.overwrite(rng.choice(list(self.mods)), same_size=rng.random() < 0.5)
+        if r < 0.10 and self.mods:
+            self.burst(rng.choice(list(self.mods)))
+        elif r < 0.22 and self.mods:
+            self.overwrite(rng.choice(list(self.mods)), same_size=rng.random() < 0.6)
         elif r < 0.34 and free_top:
             n = rng.choice(free_top)
             kind = rng.choice(['module', 'module', 'package', 'namespace'])
@@ -351,7 +371,7 @@ class Gen:
         op = {'op': 'query', 'code': b.text, 'path': None if rng.random() < 0.5 else 'probe_buf.py',
               'project': self.project, 'probes': b.probes}
         if self.policy == 'monotone' or rng.random() < 0.5:
-            self.advance(rng.choice([0, MS, SEC, 4 * SEC]))
+            self.advance(rng.choice([0, MS, 20 * MS, SEC, 4 * SEC]))
         self.ops.append(op)
         if rng.random() < 0.2:
             self.ops.append({'op': 'project_search', 'q': rng.choice(['func', 'Klass', 'VALUE', 'fn_', 'NAME_']),
@@ -441,6 +461,13 @@ def witness_cases():
             q, {'op': 'advance', 'ns': 2 * SEC},
             {'op': 'fs', 'kind': 'write', 'path': 'ma.py', 'content': v2, 'mt': mt2}, q,
             {'op': 'host_restart'}, q]}
+    v3 = world.gen_module_source(rng, 'ma', 3, shape=shape)
+    yield {'id': 'w:same-second-same-size-monotone', 'init': init, 'policy': 'witness', 'hashseed': 0, 'ops': [
+        q, {'op': 'advance', 'ns': 100 * MS},
+        {'op': 'fs', 'kind': 'write', 'path': 'ma.py', 'content': v2, 'mt': T0 + 100 * MS},
+        {'op': 'advance', 'ns': 50 * MS}, q, {'op': 'advance', 'ns': 100 * MS},
+        {'op': 'fs', 'kind': 'write', 'path': 'ma.py', 'content': v3, 'mt': T0 + 250 * MS},
+        {'op': 'advance', 'ns': 50 * MS}, q]}
     for name, dmt in (('create-dir-mtime-kept', 'keep'), ('create-dir-mtime-bumped', T0 + SEC)):
         yield {'id': 'w:' + name, 'init': init, 'policy': 'witness', 'hashseed': 0, 'ops': [
             q, {'op': 'advance', 'ns': 2 * SEC},
